@@ -346,6 +346,7 @@ class Session:
             self.lastD = D
             return t.tensor([float(v) for v in D], dtype=A.dtype).view(-1, 1)
         # float runs: the real solver, possibly poisoned
+        self.last_b = b.detach().clone()          # b = -J^T R at the base point, as the solver saw it
         e["eb"] = self.punits(self.snap_base, getattr(self, "scale_trial", None))
         self.maxunits["eb"] = max(self.maxunits["eb"], e["eb"])
         self.maxunits["eb_pct_of_tol"] = max(self.maxunits.get("eb_pct_of_tol", 0), int(100 * e["eb"] / max(1, self.tolR)))
@@ -417,6 +418,12 @@ class Session:
             num = float(last) - float(loss)
             JD = J @ D
             den = float(-(JD.mT @ (2 * R + JD)).squeeze())
+            # the same predicted decrease from the right-hand side the SOLVER was given at the base point
+            # (-(JD)^T (2R + JD) = 2 D^T b - |JD|^2 with b = -J^T R): independent of whether the residual tensor handed to
+            # the strategy still holds the base-point values after the parameter update
+            lb = getattr(self, "last_b", None)
+            if lb is not None and lb.numel() == D.numel():
+                den = float(2 * (D.reshape(-1) @ lb.reshape(-1).to(D.dtype)) - (JD.reshape(-1) @ JD.reshape(-1)))
             if den == 0 or not math.isfinite(den) or not math.isfinite(num):
                 e["qj"] = (den == 0 and num == 0)
             else:
@@ -542,7 +549,22 @@ def float_model(kind, rng, seed, ms=None):
               "sat": lambda: dict(w0=[rng.uniform(3, 12) * rng.choice([-1, 1]), rng.uniform(-6, 6)]),
               "expfit": lambda: dict(w0=[rng.uniform(0.1, 8), rng.uniform(-3, 3)]),
               "himmelf": lambda: dict(x0=[rng.uniform(-9, 9), rng.uniform(-9, 9)]),
+              "prior": lambda: dict(x0=[rng.uniform(-9, 9) for _ in range(3)], view=rng.random() < 0.5),
               "pose": lambda: dict(sig=rng.choice([0.5, 2.0]), seed=seed)}[kind]()
+    if kind == "prior":
+        # min |x|^2: the model output IS the parameter (or a view of it) - a residual tensor kept by the optimizer across the
+        # parameter update must not alias it
+        x0, view = ms["x0"], ms["view"]
+
+        class Prior(torch.nn.Module):
+            def __init__(self):
+                super().__init__()
+                self.x = torch.nn.Parameter(torch.tensor(x0, dtype=f64))
+
+            def forward(self, inp):
+                return self.x.view(-1, 1) if view else self.x
+
+        return Prior(), torch.zeros(1, dtype=f64), None, "prior |x|^2 from %s (%s)" % (x0, "view" if view else "parameter"), ms
     if kind == "rosen":
         x0, k = ms["x0"], ms["k"]
 
@@ -769,7 +791,7 @@ def run_float(ctx, algo, kind, strat, R, h, th, modes, ncalls, seed, kernel=Fals
 def float_traces(ctx, n):
     rng = ctx.rng
     traces = []
-    kinds = ["sat", "rosen", "expfit", "himmelf", "pose"]
+    kinds = ["sat", "rosen", "expfit", "himmelf", "pose", "prior"]
     hyp = dict(u=1, w0=1, f=1, minE=-24, maxE=24, d0=-20)       # tiny damping: genuine rejections
     hyp2 = dict(u=2, w0=1, f=1, minE=-30, maxE=10, d0=-12)
     for i in range(n):
